@@ -10,7 +10,7 @@ from gen import numeric as G
 
 ID = "C13"
 LEVEL = "proof"
-LEAN_IMPORTS = ["WM.Props.C13"]
+LEAN_IMPORTS = ["WM.Props.C13", "WM.Props.C13Date"]
 THEOREMS = [
     "WM.C13.split_exact", "WM.C13.split_shape", "WM.C13.split_unguarded_wrong",
     "WM.C13.int_sortable", "WM.C13.float_sortable", "WM.C13.float_sortable_unsigned",
@@ -24,6 +24,9 @@ THEOREMS = [
     "WM.C13.range_query_float_numeric_partial", "WM.C13.range_query_float_numeric_full_false",
     "WM.C13.decimal_monotone", "WM.C13.decimal_bound_partial", "WM.C13.decimal_bound_full_false",
     "WM.C13.range_query_datetime",
+    "WM.C13.civil_order", "WM.C13.range_query_civil", "WM.C13.partial_date_period",
+    "WM.C13.range_bound_period", "WM.C13.parse_range_datetime", "WM.C13.parse_query_datetime",
+    "WM.C13.column_order",
 ]
 PARTIAL = {
     "WM.C13.range_query_float_numeric_partial":
@@ -46,7 +49,9 @@ PARTIAL = {
 RULE = ("split_ranges: exhaustive over 8 bits (every step 1..8, every start<=end) plus boundary-biased "
         "(n, step, start, end) for n in {1..64}; non-trivial = more than one range emitted. "
         "tiered/compile/codec streams: non-trivial = an exclusive or open end, a domain limit, a negative, "
-        "a float special or an error outcome is involved. End-to-end: one case = one real search on a real "
+        "a float special or an error outcome is involved. date layer: date strings = prefixes of "
+        "YYYYMMDDhhmmssuuuuuu biased to month ends/leap days/field limits, with separators, odd lengths, "
+        "out-of-range fields and stray letters; non-trivial = not a plain valid 20-digit timestamp. End-to-end: one case = one real search on a real "
         "index; non-trivial = the expected result set is neither empty nor everything (ranges) or contains a "
         "tie/negative/limit value (sort). distinct = distinct canonical (stream, config, input).")
 ASSUMPTIONS = [
@@ -56,10 +61,18 @@ ASSUMPTIONS = [
     "implements, theorem range_query_float); where it differs from numeric membership (signed zeros, NaN) the "
     "numeric reading is checked by deterministic probes and reported as KNOWN-FINDING "
     "(theorems range_query_float_numeric_partial / _full_false)",
-    "qparser/dateparse.py (the DateParserPlugin grammar) is neither modelled nor exercised here; DATETIME's own "
-    "_parse_datestring / parse_range / parse_query are exercised end-to-end only (regex/calendar layer trusted)",
-    "the proleptic Gregorian calendar arithmetic of datetime/timedelta is Python's; the model starts from the "
-    "normalised (days, seconds, microseconds) triple",
+    "qparser/dateparse.py (the DateParserPlugin grammar) is not modelled; it is exercised end-to-end on "
+    "unambiguous numeric/English date texts only (stream e2e-dateplugin). DATETIME._parse_datestring / "
+    "adatetime floor/ceil / parse_range / parse_query are modelled (WM.NumericDate) on the cleaned string as a "
+    "list of character codes: digits and characters int() rejects; what else int() accepts (sign, underscore, "
+    "non-ASCII digits) is outside the model",
+    "the proleptic Gregorian calendar is modelled for the datetime -> microseconds direction (toordinal, month "
+    "lengths, leap years; theorem civil_order) and compared with CPython's date.toordinal/calendar.monthrange; "
+    "the inverse direction (long_to_datetime: timedelta added to datetime.min) stays Python's: the model returns "
+    "the normalised (days, seconds, microseconds) triple",
+    "DATETIME.parse_query of a fully specified timestamp gives Term(field, datetime); that this term selects "
+    "exactly the documents holding that instant is checked end-to-end, the theorem parse_query_datetime covers "
+    "the ambiguous (partial date) case",
     "Decimal parsing/arithmetic is Python's; the model works on exact rationals",
     "composition with C01 (an Or of Term/TermRange sub-queries matches the documents owning a selected term) "
     "is modelled by `matchesDoc` and checked end-to-end, not proved about the matcher code",
@@ -123,6 +136,79 @@ def _o(x):
     return "none" if x is None else str(x)
 
 
+def _range_text_differs(ctx, component, case, model_txt, impl_txt, impl_exact):
+    """The emitted range list differs from the model's.  Which ranges are emitted, and in which order,
+    is not observable (the consumer Ors them): when the implementation's list still accepts exactly
+    the interval on indexed levels this is a harmless difference (counted, noted), otherwise a
+    divergence."""
+    if impl_exact and not impl_txt.startswith(("exc", "err")):
+        ctx.stat("ranges:text-differs-from-model-but-exact")
+        if not getattr(ctx, "_c13_noted", False):
+            ctx._c13_noted = True
+            if hasattr(ctx, "note"):
+                ctx.note("range lists differ textually from the Lean model but are semantically exact "
+                         "(first: %s %r)" % (component, case))
+        return
+    ctx.divergence(component, case, model_txt, impl_txt)
+
+
+def _tiered_semantic(cfg, a, b, step, sx, ex_):
+    """Does the real tiered_ranges accept exactly the interval, on indexed levels?  (fallback only)"""
+    from whoosh.util import numeric as N
+    try:
+        n = cfg["bits"]
+        numtype = float if cfg["kind"] == "float" else int
+        rs = list(N.tiered_ranges(numtype, n, cfg["signed"], a, b, step, sx, ex_))
+        top = (1 << n) - 1
+        s = 0 if a is None else N.to_sortable(numtype, n, cfg["signed"], a) + (1 if sx else 0)
+        e = top if b is None else N.to_sortable(numtype, n, cfg["signed"], b) - (1 if ex_ else 0)
+        cov, shape = G.coverage_ok(n, step, s, e, rs)
+        return cov and shape
+    except Exception:  # noqa
+        return False
+
+
+def _compile_semantic(cfg, a, b, sx, ex_):
+    """Does the real compiled query select, among the terms the real field indexes for probe values,
+    exactly those of values inside the interval?  (fallback only, integer and float fields)"""
+    from whoosh import fields, query
+    try:
+        fld = G.field_of(cfg)
+        q = query.NumericRange("v", a, b, sx, ex_)._compile_query(G._FakeReader(fields.Schema(v=fld)))
+        subs = G.ser_query(q)
+        if any(t.startswith(("(rx", "(other")) for t in subs):
+            return False
+        sel = []
+        for t in subs:
+            parts = t.strip("()").split()
+            sel.append((bytes.fromhex(parts[1]), bytes.fromhex(parts[-1])))
+        import random
+        rng = random.Random(12345)
+        probes = [v for v in (a, b) if v is not None]
+        for v in list(probes):
+            for _ in range(3):
+                w = G.neighbour(rng, cfg, v)
+                if G.in_domain(cfg, w):
+                    probes.append(w)
+        probes += G.gen_values(rng, cfg, 24)
+        if cfg["kind"] == "int":
+            lo, hi = G.int_domain(cfg)
+            probes += [lo, hi]
+        key = lambda v: G.to_spec_key(cfg, v)
+        for v in probes:
+            if v != v:
+                continue
+            terms = [t[0] for t in fld.index(v)]
+            hit = any(lo_ <= t <= hi_ for (lo_, hi_) in sel for t in terms)
+            inside = ((a is None or (key(a) < key(v) if sx else key(a) <= key(v))) and
+                      (b is None or (key(v) < key(b) if ex_ else key(v) <= key(b))))
+            if hit != inside:
+                return False
+        return True
+    except Exception:  # noqa
+        return False
+
+
 # ================================================================================================
 # 1. split_ranges: exhaustive over 8 bits
 
@@ -139,7 +225,8 @@ def _split_exhaustive(ctx):
         ctx.case(("split8", step, s, e), nontrivial=nr > 1)
         ctx.stat("split8:ranges=%d" % min(nr, 6))
         if m != txt:
-            ctx.divergence("util.numeric.split_ranges", {"n": 8, "step": step, "start": s, "end": e}, m, txt)
+            _range_text_differs(ctx, "util.numeric.split_ranges", {"n": 8, "step": step, "start": s, "end": e}, m, txt,
+                                cov and shape)
         if not cov:
             ctx.violation(SIG_COVER, {"stream": "split", "n": 8, "step": step, "start": s, "end": e},
                           "exactly [%d, %d]" % (s, e), txt, "8-bit exhaustive")
@@ -159,7 +246,8 @@ def _split_wide(ctx):
         ctx.case(("splitw", n, step, s, e), nontrivial=nr > 1)
         ctx.stat("splitw:n=%d" % n)
         if m != txt:
-            ctx.divergence("util.numeric.split_ranges", {"n": n, "step": step, "start": s, "end": e}, m, txt)
+            _range_text_differs(ctx, "util.numeric.split_ranges", {"n": n, "step": step, "start": s, "end": e}, m, txt,
+                                cov and shape)
         if not cov:
             ctx.violation(SIG_COVER, {"stream": "split", "n": n, "step": step, "start": s, "end": e},
                           "exactly [%d, %d]" % (s, e), txt, "boundary-biased")
@@ -195,7 +283,7 @@ def _codec_int(ctx):
     for i in range(count):
         n = rng.choice(G.INT_BITS)
         signed = rng.random() < 0.5
-        step = rng.choice([0, 1, 2, 3, 4, 4, 5, 6, 7, 8])
+        step = rng.choice([0, 1, 2, 3, 4, 4, 5, 6, 7, 8, rng.choice([9, 16, 31, 32, 33, 64, 100])])
         cfg = {"kind": "int", "bits": n, "signed": signed, "step": step, "sortable": False, "dc": 0}
         lo, hi = G.int_domain(cfg)
         fld = _try(G.field_of, cfg)
@@ -267,9 +355,24 @@ def _codec_int(ctx):
     outs = ctx.driver.ask(lines)
     for line, m, v, (key, nt) in zip(lines, outs, impl, keys):
         ctx.case(key, nontrivial=nt)
+        op = line.split()[1]
+        if op.startswith("index-"):
+            m, v = _canon_terms(m), _canon_terms(v)     # the order in which tier terms are yielded is not observable
         if m != v:
-            ctx.divergence("NUMERIC/util.numeric:" + line.split()[1], line, m, v)
+            if op == "tieredc-int":
+                (_, n, signed, a, b, step, sx, ex_) = key
+                cfg = {"kind": "int", "bits": n, "signed": signed}
+                _range_text_differs(ctx, "util.numeric.tiered_ranges", line, m, v, _tiered_semantic(cfg, a, b, step, sx, ex_))
+                continue
+            ctx.divergence("NUMERIC/util.numeric:" + op, line, m, v)
     ctx.sample({"request": lines[7], "model": outs[7], "impl": impl[7]})
+
+
+def _canon_terms(t):
+    """`ok (t1 t2 ...)` with the terms as a sorted multiset."""
+    if t.startswith("ok (") and t.endswith(")"):
+        return "ok (" + " ".join(sorted(t[4:-1].split())) + ")"
+    return t
 
 
 def _tiered_exhaustive8(ctx):
@@ -294,7 +397,7 @@ def _tiered_exhaustive8(ctx):
         (sg, a, b, st, sx, ex_) = it
         ctx.case(("tiered8",) + it, nontrivial=(a is None or b is None or sx or ex_))
         if m != txt:
-            ctx.divergence("util.numeric.tiered_ranges", list(it), m, txt)
+            _range_text_differs(ctx, "util.numeric.tiered_ranges", list(it), m, txt, ok)
         if not ok:
             ctx.violation("tiered_ranges:ranges-cover!=interval", {"stream": "tiered8", "args": list(it)},
                           "the interval", txt, "8-bit tiered_ranges vs interval semantics")
@@ -439,7 +542,16 @@ def _codec_float(ctx):
         ctx.case(key, nontrivial=nt)
         if line.startswith("c13 funsort"):
             m, v = nan_class(m), nan_class(v)
+        if line.startswith("c13 index-"):
+            m, v = _canon_terms(m), _canon_terms(v)
         if m != v:
+            if line.startswith("c13 tieredc-float") and m.startswith("ok") and v.startswith("ok"):
+                (_, signed, a, c, step, sx, ex_) = key
+                cfg = {"kind": "float", "bits": 64, "signed": signed}
+                _range_text_differs(ctx, "util.numeric.tiered_ranges(float)", line, m, v,
+                                    _tiered_semantic(cfg, None if a is None else G.b2f(a), None if c is None else G.b2f(c),
+                                                     step, sx, ex_))
+                continue
             ctx.divergence("NUMERIC(float)/util.numeric:" + line.split()[1], line, m, v)
     # float order end-to-end on the pure functions: sortable order == Python order on non-NaN doubles
     vals = G.gen_float_values(rng, ctx.budget(3000, 40000))
@@ -468,7 +580,7 @@ def _compile(ctx):
         if rng.random() < 0.75:
             n = rng.choice(G.INT_BITS)
             cfg = {"kind": "int", "bits": n, "signed": rng.random() < 0.5, "sortable": False, "dc": 0,
-                   "step": rng.choice([0, 1, 2, 3, 4, 4, 5, 6, 7, 8])}
+                   "step": rng.choice([0, 1, 2, 3, 4, 4, 5, 6, 7, 8, rng.choice([9, 16, 31, 32, 33, 64, 100])])}
             lo, hi = G.int_domain(cfg)
             a, b = _gen_bound(rng, cfg, lo, hi), _gen_bound(rng, cfg, lo, hi)
             if a is not None and b is not None and a > b and rng.random() < 0.8:
@@ -499,6 +611,11 @@ def _compile(ctx):
         ctx.case(("compile", line), nontrivial=(v.count("(") > 2 or v.startswith("err") or v == "ok ()"))
         ctx.stat("compile:" + ("err" if v.startswith("err") else "null" if v == "ok ()" else "subs=%d" % min(6, v.count("(") - 1)))
         if m != v:
+            # which Term/TermRange sub-queries the Or is made of is not observable: fall back to what they select
+            (cfg, a, b, sx, ex_) = it
+            if m.startswith("ok") and v.startswith("ok") and _compile_semantic(cfg, a, b, sx, ex_):
+                ctx.stat("compile:text-differs-from-model-but-selects-interval")
+                continue
             ctx.divergence("query.ranges.NumericRange._compile_query", line, m, v)
     ctx.sample({"request": lines[3], "model": outs[3], "impl": res[3]})
 
@@ -592,6 +709,266 @@ def _decimal(ctx):
 
 
 # ================================================================================================
+# 3b. round 3: the date layer (calendar, _parse_datestring, adatetime floor/ceil, parse_range/parse_query)
+#     and column values of sortable fields
+
+def _codes(text):
+    """The cleaned date string as character codes: digits 0..9, anything else 10+."""
+    t = text.replace(" ", "").replace("-", "").replace(".", "")
+    return "(" + " ".join(str(int(c)) if c in "0123456789" else str(10 + (ord(c) % 50)) for c in t) + ")"
+
+
+def _gen_datestring(rng):
+    """(text, kind): mostly valid prefixes of YYYYMMDDhhmmssuuuuuu, biased to month ends / leap days /
+    field limits, with separators, odd lengths, out-of-range fields and stray letters."""
+    y = rng.choice([1, 4, 100, 400, 1900, 1999, 2000, 2004, 2023, 2024, 2100, 9999, 0, rng.randint(1, 9999)])
+    m = rng.choice([1, 2, 2, 2, 4, 6, 9, 11, 12, rng.randint(1, 12)])
+    import calendar
+    dim = calendar.monthrange(y if y else 2000, m)[1]
+    d = rng.choice([1, dim, dim, max(1, dim - 1), rng.randint(1, dim)])
+    h, mi, sec = rng.choice([0, 23, rng.randint(0, 23)]), rng.choice([0, 59, rng.randint(0, 59)]), rng.choice([0, 59, rng.randint(0, 59)])
+    us = rng.choice([0, 999999, 1, rng.randint(0, 999999)])
+    kind = "valid"
+    r = rng.random()
+    if r < 0.25:
+        kind = "bad-field"
+        which = rng.choice(["m0", "m13", "d0", "dim+1", "d32", "h24", "mi60", "s60", "feb29", "feb30"])
+        if which == "m0": m = 0
+        elif which == "m13": m = rng.choice([13, 23, 99])
+        elif which == "d0": d = 0
+        elif which == "dim+1": d = dim + 1
+        elif which == "d32": d = rng.choice([32, 99])
+        elif which == "h24": h = rng.choice([24, 99])
+        elif which == "mi60": mi = rng.choice([60, 99])
+        elif which == "s60": sec = rng.choice([60, 61, 99])
+        elif which == "feb29": m, d = 2, 29
+        elif which == "feb30": m, d = 2, 30
+    full = "%04d%02d%02d%02d%02d%02d%06d" % (y, m, d, h, mi, sec, us)
+    n = rng.choice([4, 6, 8, 10, 12, 14, 20, 4, 6, 8, 14, 20])
+    r = rng.random()
+    if r < 0.15:
+        n = rng.choice([0, 1, 2, 3, 5, 7, 9, 11, 13, 15, 16, 17, 18, 19])
+        kind += "+odd-length"
+    text = full[:n]
+    if r > 0.93:
+        text = full + "".join(rng.choice("0123456789") for _ in range(rng.randint(1, 3)))
+        kind += "+too-long"
+    if rng.random() < 0.06 and text:
+        i = rng.randrange(len(text))
+        text = text[:i] + rng.choice("abxyzTZ:/") + text[i + 1:]
+        kind += "+letter"
+    if rng.random() < 0.2 and len(text) >= 8:
+        # separators _parse_datestring strips
+        text = text[:4] + rng.choice("-. ") + text[4:6] + rng.choice("-. ") + text[6:]
+        kind += "+sep"
+    return text, kind
+
+
+def _ser_adt(at):
+    import datetime as _dt
+    if isinstance(at, _dt.datetime):
+        t = (at.year, at.month, at.day, at.hour, at.minute, at.second, at.microsecond)
+    else:
+        t = at.tuple()
+    return "ok (" + " ".join("none" if v is None else str(v) for v in t) + ")"
+
+
+def _ser_dtquery(q, flags=(False, False)):
+    from whoosh import query
+    from whoosh.query import qcore
+    if q is qcore.NullQuery or isinstance(q, type(qcore.NullQuery)):
+        return "ok error"
+    if isinstance(q, query.Every):
+        return "ok every"
+    if isinstance(q, query.NumericRange):
+        got = (bool(q.startexcl), bool(q.endexcl))
+        return "ok range %s %s%s" % (_o(q.start), _o(q.end), "" if got == tuple(flags) else " flags=%s%s" % (_b(got[0]), _b(got[1])))
+    if isinstance(q, query.Term):
+        t = q.text
+        return "ok term %s" % (G.dt_long(t) if isinstance(t, datetime.datetime) else repr(t))
+    return "ok other " + type(q).__name__
+
+
+def _dateparse(ctx):
+    import calendar
+    from whoosh import fields
+    from whoosh.util import times
+    rng = ctx.rng("dateparse")
+    fld = fields.DATETIME()
+    lines, impl, keys = [], [], []
+
+    def add(line, val, key, nontrivial=True):
+        lines.append(line)
+        impl.append(val)
+        keys.append((key, nontrivial))
+
+    # calendar: month lengths, ordinals, datetime_to_long from civil fields (incl. what datetime() rejects)
+    for i in range(ctx.budget(1500, 20000)):
+        y = rng.choice([1, 4, 100, 400, 1600, 1900, 2000, 2024, 2100, 9999, rng.randint(1, 9999)])
+        m = rng.randint(1, 12)
+        dim = calendar.monthrange(y, m)[1]
+        add("c13 dim %d %d" % (y, m), str(dim), ("dim", y, m), m == 2)
+        d = rng.choice([1, dim, rng.randint(1, dim)])
+        add("c13 ordinal %d %d %d" % (y, m, d), str(datetime.date(y, m, d).toordinal()), ("ordinal", y, m, d),
+            d in (1, dim))
+        h, mi, sec, us = rng.randint(0, 23), rng.randint(0, 59), rng.randint(0, 59), rng.choice([0, 999999, rng.randint(0, 999999)])
+        if rng.random() < 0.2:
+            y, m, d, h, mi, sec, us = rng.choice([(0, m, d, h, mi, sec, us), (y, 13, d, h, mi, sec, us), (y, m, dim + 1, h, mi, sec, us),
+                                                  (y, m, d, 24, mi, sec, us), (y, m, d, h, 60, sec, us), (y, m, d, h, mi, 60, us),
+                                                  (y, m, d, h, mi, sec, 1000000), (10000, m, d, h, mi, sec, us), (y, 0, d, h, mi, sec, us),
+                                                  (y, m, 0, h, mi, sec, us)])
+        try:
+            r = "ok %d" % times.datetime_to_long(datetime.datetime(y, m, d, h, mi, sec, us))
+        except Exception as ex:  # noqa
+            r = "err " + G.exc_name(ex)
+        ctx.stat("civil2long:" + r.split()[0])
+        add("c13 civil2long %d %d %d %d %d %d %d" % (y, m, d, h, mi, sec, us), r, ("civil2long", y, m, d, h, mi, sec, us))
+    # _parse_datestring, floor/ceil, prepare_datetime(text), parse_query
+    texts = []
+    for i in range(ctx.budget(2500, 30000)):
+        text, kind = _gen_datestring(rng)
+        texts.append(text)
+        cs = _codes(text)
+        try:
+            at = fld._parse_datestring(text)
+            r = _ser_adt(at)
+        except Exception as ex:  # noqa
+            at = None
+            r = "err " + G.exc_name(ex)
+        ctx.stat("parse_datestring:%s:%s" % (kind, r.split()[0]))
+        add("c13 dt-parse " + cs, r, ("dt-parse", text), kind != "valid" or len(text) < 20)
+        try:
+            if at is None:
+                raise ValueError("unparsed")
+            b = "ok %d %d" % (G.dt_long(times.floor(at)), G.dt_long(times.ceil(at)))
+        except Exception as ex:  # noqa
+            b = "err " + G.exc_name(ex)
+        add("c13 dt-bounds " + cs, b, ("dt-bounds", text))
+        try:
+            pr = "ok %d" % fld.prepare_datetime(text)
+        except Exception as ex:  # noqa
+            pr = "err " + G.exc_name(ex)
+        add("c13 dt-prepare " + cs, pr, ("dt-prepare", text))
+        try:
+            pq = _ser_dtquery(fld.parse_query("v", text))
+        except Exception as ex:  # noqa
+            pq = "err " + G.exc_name(ex)
+        ctx.stat("parse_query:" + " ".join(pq.split()[:2]))
+        add("c13 dt-parse-query " + cs, pq, ("dt-parse-query", text))
+    # parse_range
+    for i in range(ctx.budget(2500, 30000)):
+        a = None if rng.random() < 0.2 else (rng.choice(texts) if rng.random() < 0.5 else _gen_datestring(rng)[0])
+        b = None if rng.random() < 0.2 else (rng.choice(texts) if rng.random() < 0.5 else _gen_datestring(rng)[0])
+        sx, ex_ = rng.random() < 0.5, rng.random() < 0.5
+        try:
+            # the exclusive flags travel unchanged into the NumericRange
+            r = _ser_dtquery(fld.parse_range("v", a, b, sx, ex_), (sx, ex_))
+        except Exception as ex:  # noqa
+            r = "err " + G.exc_name(ex)
+        ctx.stat("parse_range:" + " ".join(r.split()[:2]) + (":sx" if sx else "") + (":ex" if ex_ else ""))
+        add("c13 dt-parse-range %s %s %s %s" % ("none" if a is None else _codes(a), "none" if b is None else _codes(b), _b(sx), _b(ex_)),
+            r, ("dt-parse-range", a, b, sx, ex_))
+    outs = ctx.driver.ask(lines)
+    for line, m, v, (key, nt) in zip(lines, outs, impl, keys):
+        ctx.case(key, nontrivial=nt)
+        if m != v:
+            ctx.divergence("DATETIME/util.times:" + line.split()[1], line, m, v)
+    ctx.sample({"request": lines[-1], "model": outs[-1], "impl": impl[-1]})
+
+
+def _columns(ctx):
+    """to_column_value / from_column_value of NUMERIC (int, float, Decimal) and DATETIME vs the model."""
+    rng = ctx.rng("columns")
+    lines, impl, keys = [], [], []
+
+    def add(line, val, key, nontrivial=True):
+        lines.append(line)
+        impl.append(val)
+        keys.append((key, nontrivial))
+
+    for i in range(ctx.budget(1500, 15000)):
+        r = rng.random()
+        if r < 0.45:
+            n, signed = rng.choice(G.INT_BITS), rng.random() < 0.5
+            cfg = {"kind": "int", "bits": n, "signed": signed, "step": rng.choice([0, 4, 8]), "sortable": True, "dc": 0}
+            fld = G.field_of(cfg)
+            lo, hi = G.int_domain(cfg)
+            x = G.gen_int_values(rng, lo, hi, 1)[0]
+            if rng.random() < 0.12:
+                x = rng.choice([lo - 1, hi + 1, hi + (1 << 64)])
+            v = x if rng.random() < 0.8 else [x, lo]       # a list/tuple: the first value goes to the column
+            try:
+                c = fld.to_column_value(v)
+                t = "ok %d" % c
+            except Exception as ex:  # noqa
+                c = None
+                t = "err " + G.exc_name(ex)
+            add("c13 tocol-int %d %s %d" % (n, _b(signed), x), t, ("tocol-int", n, signed, x), x in (lo, hi) or x < 0 or c is None)
+            s = c if c is not None else rng.randint(0, (1 << n) - 1)
+            add("c13 fromcol-int %d %s %d" % (n, _b(signed), s), str(_try(fld.from_column_value, s)), ("fromcol-int", n, signed, s))
+        elif r < 0.7:
+            signed = rng.random() < 0.6
+            fld = G.field_of({"kind": "float", "signed": signed, "step": 4, "sortable": True})
+            b = _quiet(_gen_pattern(rng))
+            try:
+                c = fld.to_column_value(G.b2f(b))
+                t = "ok %d" % c
+            except Exception as ex:  # noqa
+                c = None
+                t = "err " + G.exc_name(ex)
+            add("c13 tocol-float %s %d" % (_b(signed), b), t, ("tocol-float", signed, b))
+            if c is not None and not (b & 0x7ff0000000000000 == 0x7ff0000000000000 and b & 0xfffffffffffff):
+                back = _try(fld.from_column_value, c)
+                add("c13 fromcol-float %s %d" % (_b(signed), c), back if isinstance(back, str) else "ok %d" % G.f2b(back),
+                    ("fromcol-float", signed, c))
+        elif r < 0.85:
+            n, signed, dc = rng.choice(G.INT_BITS), rng.random() < 0.6, rng.choice([1, 2, 5])
+            cfg = {"kind": "decimal", "bits": n, "signed": signed, "step": 4, "sortable": True, "dc": dc}
+            fld = G.field_of(cfg)
+            lo, hi = G.int_domain(cfg)
+            m = G.gen_int_values(rng, lo, hi, 1)[0]
+            d = Decimal(m).scaleb(-dc)
+            if rng.random() < 0.3:
+                d = d + Decimal(rng.randint(1, 9)).scaleb(-dc - 1) * rng.choice([-1, 1])
+            num, den = d.as_integer_ratio()
+            try:
+                c = fld.to_column_value(d)
+                t = "ok %d" % c
+            except Exception as ex:  # noqa
+                c = None
+                t = "err " + G.exc_name(ex)
+            add("c13 tocol-dec %d %s %d %d/%d" % (n, _b(signed), dc, num, den), t, ("tocol-dec", n, signed, dc, str(d)))
+            if c is not None:
+                u = _try(fld.from_column_value, c)
+                add("c13 fromcol-dec %d %s %d %d" % (n, _b(signed), dc, c), u if isinstance(u, str) else _rat(u),
+                    ("fromcol-dec", n, signed, dc, c))
+        else:
+            from whoosh import fields
+            fld = fields.DATETIME(sortable=True)
+            dt = G.gen_datetimes(rng, 1)[0]
+            c = _try(fld.to_column_value, dt)
+            add("c13 civil2long %d %d %d %d %d %d %d" % (dt.year, dt.month, dt.day, dt.hour, dt.minute, dt.second, dt.microsecond),
+                c if isinstance(c, str) else "ok %d" % c, ("tocol-dt", dt.isoformat()))
+            if not isinstance(c, str):
+                back = _try(fld.from_column_value, c)
+                if isinstance(back, str):
+                    t = back
+                else:
+                    tb = back - datetime.datetime.min
+                    t = "%d %d %d" % (tb.days, tb.seconds, tb.microseconds)
+                    if back != dt:
+                        ctx.violation(SIG_DT, {"stream": "datetime", "iso": dt.isoformat()}, dt.isoformat(), back.isoformat(),
+                                      "DATETIME.from_column_value(to_column_value(dt)) != dt")
+                add("c13 fromcol-dt %d" % c, t, ("fromcol-dt", c))
+    outs = ctx.driver.ask(lines)
+    for line, m, v, (key, nt) in zip(lines, outs, impl, keys):
+        ctx.case(key, nontrivial=nt)
+        ctx.stat("column:" + line.split()[1])
+        if m != v:
+            ctx.divergence("NUMERIC/DATETIME column value:" + line.split()[1], line, m, v)
+
+
+# ================================================================================================
 # 4. end-to-end: real fields, real indexes, real searches; expected values from the Lean spec
 
 def _spec_docs(cfg, docs):
@@ -651,18 +1028,48 @@ def _gen_e2e_case(rng, tier):
     return case
 
 
+_DT_MODES = {"year": 4, "month": 6, "day": 8, "hour": 10, "minute": 12, "second": 14, "full": 20}
+
+
 def _dt_text(v, mode):
-    if mode == "day":
-        return "%04d%02d%02d" % (v.year, v.month, v.day)
-    return "%04d%02d%02d%02d%02d%02d%06d" % (v.year, v.month, v.day, v.hour, v.minute, v.second, v.microsecond)
+    return ("%04d%02d%02d%02d%02d%02d%06d" % (v.year, v.month, v.day, v.hour, v.minute, v.second, v.microsecond))[:_DT_MODES[mode]]
+
+
+def _dt_period(v, mode):
+    """First and last instant of the period a date written down to `mode` stands for — computed with
+    datetime arithmetic only (next period start minus one microsecond), independently of whoosh."""
+    us = datetime.timedelta(microseconds=1)
+    if mode == "full":
+        return v, v
+    if mode == "year":
+        d0 = datetime.datetime(v.year, 1, 1)
+        nxt = datetime.datetime(v.year + 1, 1, 1) if v.year < 9999 else None
+    elif mode == "month":
+        d0 = datetime.datetime(v.year, v.month, 1)
+        if v.month < 12:
+            nxt = datetime.datetime(v.year, v.month + 1, 1)
+        else:
+            nxt = datetime.datetime(v.year + 1, 1, 1) if v.year < 9999 else None
+    else:
+        keep = {"day": 3, "hour": 4, "minute": 5, "second": 6}[mode]
+        parts = [v.year, v.month, v.day, v.hour, v.minute, v.second][:keep] + [0] * (6 - keep)
+        d0 = datetime.datetime(*parts)
+        step = {"day": datetime.timedelta(days=1), "hour": datetime.timedelta(hours=1),
+                "minute": datetime.timedelta(minutes=1), "second": datetime.timedelta(seconds=1)}[mode]
+        try:
+            nxt = d0 + step
+        except OverflowError:
+            nxt = None
+    return d0, (nxt - us if nxt is not None else datetime.datetime.max)
 
 
 def _dt_parser_queries(rng, vals):
-    """Range and single-date strings for DATETIME.parse_range / parse_query.  A partial date (day
-    resolution) stands for the whole day: inclusive bounds take the day in, exclusive bounds leave
-    it out; full timestamps are exact."""
+    """Range and single-date strings for DATETIME.parse_range / parse_query.  A partial date stands for
+    a whole period (year, month, day, hour, minute, second): inclusive bounds take the period in,
+    exclusive bounds leave it out; full timestamps are exact."""
     qs, texts = [], []
-    for _ in range(8):
+    modes = list(_DT_MODES)
+    for _ in range(10):
         a = rng.choice(vals) if rng.random() < 0.85 else None
         b = rng.choice(vals) if rng.random() < 0.85 else None
         if a is None and b is None:
@@ -670,24 +1077,24 @@ def _dt_parser_queries(rng, vals):
         if a is not None and b is not None and a > b:
             a, b = b, a
         sx, ex_ = rng.random() < 0.4, rng.random() < 0.4
-        mode = rng.choice(["day", "full"])
+        ma, mb = rng.choice(modes), rng.choice(modes)
 
-        def bound(v, lower, excl):
-            if v is None or mode == "full":
-                return v
-            d0 = v.replace(hour=0, minute=0, second=0, microsecond=0)
-            d1 = v.replace(hour=23, minute=59, second=59, microsecond=999999)
+        def bound(v, mode, lower, excl):
+            if v is None:
+                return None
+            d0, d1 = _dt_period(v, mode)
             if lower:
                 return d1 if excl else d0
             return d0 if excl else d1
-        qs.append((bound(a, True, sx), bound(b, False, ex_), sx, ex_))
-        texts.append("%s%sTO%s%s" % ("{" if sx else "[", _dt_text(a, mode) + " " if a is not None else "",
-                                     " " + _dt_text(b, mode) if b is not None else "", "}" if ex_ else "]"))
-    for v in [rng.choice(vals) for _ in range(2)]:
-        # a bare day: everything on that day
-        qs.append((v.replace(hour=0, minute=0, second=0, microsecond=0),
-                   v.replace(hour=23, minute=59, second=59, microsecond=999999), False, False))
-        texts.append(_dt_text(v, "day"))
+        qs.append((bound(a, ma, True, sx), bound(b, mb, False, ex_), sx, ex_))
+        texts.append("%s%sTO%s%s" % ("{" if sx else "[", _dt_text(a, ma) + " " if a is not None else "",
+                                     " " + _dt_text(b, mb) if b is not None else "", "}" if ex_ else "]"))
+    for v in [rng.choice(vals) for _ in range(3)]:
+        # a bare (partial) date: everything in that period
+        mode = rng.choice(modes)
+        d0, d1 = _dt_period(v, mode)
+        qs.append((d0, d1, False, False))
+        texts.append(_dt_text(v, mode))
     return qs, texts
 
 
@@ -950,6 +1357,142 @@ def _float_sortable_probe(ctx):
 
 
 # ================================================================================================
+# 4b. round 3: qparser/dateparse.py end to end (DateParserPlugin on unambiguous texts)
+
+SIG_DATEPLUGIN = "DateParserPlugin:result!=period-interval-filter"
+SIG_DATEPLUGIN_EXCL = "DateParserPlugin.range_to_dt:exclusive-braces-treated-as-inclusive"
+_MONTHS = "jan feb mar apr may jun jul aug sep oct nov dec".split()
+
+
+def _plugin_text(v, mode, style):
+    mon = _MONTHS[v.month - 1]
+    if mode == "year":
+        return "%04d" % v.year
+    if mode == "month":
+        return "'%s %04d'" % (mon, v.year)
+    if mode == "day":
+        return ["%04d%02d%02d" % (v.year, v.month, v.day), "'%s %d %04d'" % (mon, v.day, v.year),
+                "'%d %s %04d'" % (v.day, mon, v.year)][style % 3]
+    if mode == "second":
+        return "'%02d:%02d:%02d %s %d %04d'" % (v.hour, v.minute, v.second, mon, v.day, v.year)
+    raise ValueError(mode)
+
+
+def w_dateplugin(case):
+    """case = dict(docs=[datetime], texts=[str], basedate=datetime) -> list of sorted positions / 'exc Name'."""
+    from whoosh import fields
+    from whoosh.qparser import QueryParser
+    from whoosh.qparser.dateparse import DateParserPlugin
+    try:
+        schema = fields.Schema(pos=fields.STORED, v=fields.DATETIME(sortable=case.get("sortable", False)))
+        ix = G.new_ram_index(schema)
+        with ix.writer() as w:
+            for i, d in enumerate(case["docs"]):
+                w.add_document(pos=i, v=d)
+        qp = QueryParser("v", schema)
+        qp.add_plugin(DateParserPlugin(basedate=case["basedate"]))
+    except Exception as ex:  # noqa
+        return "exc " + G.exc_name(ex)
+    out = []
+    with ix.searcher() as s:
+        for text in case["texts"]:
+            try:
+                out.append(sorted(h["pos"] for h in s.search(qp.parse("v:" + text), limit=None)))
+            except Exception as ex:  # noqa
+                out.append("exc " + G.exc_name(ex))
+    return out
+
+
+def _e2e_dateplugin(ctx):
+    rng = ctx.rng("e2e-dateplugin")
+    cases = []
+    for _ in range(ctx.budget(16, 150)):
+        base = datetime.datetime(rng.randint(1990, 2030), rng.randint(1, 12), rng.randint(1, 28), 12, 0, 0)
+        anchors = [datetime.datetime(rng.choice([1000, 1900, 2000, 2004, 2023, 9998, rng.randint(1000, 9998)]), rng.choice([1, 2, 2, 12, rng.randint(1, 12)]),
+                                     1, 0, 0, 0) for _ in range(4)]
+        docs = []
+        for a in anchors:
+            import calendar
+            dim = calendar.monthrange(a.year, a.month)[1]
+            for _k in range(6):
+                docs.append(a.replace(day=rng.choice([1, dim, rng.randint(1, dim)]), hour=rng.choice([0, 23, rng.randint(0, 23)]),
+                                      minute=rng.choice([0, 59, rng.randint(0, 59)]), second=rng.choice([0, 59, rng.randint(0, 59)]),
+                                      microsecond=rng.choice([0, 999999, rng.randint(0, 999999)])))
+            docs.append(a - datetime.timedelta(microseconds=1))
+        texts, queries, kinds = [], [], []
+        for _q in range(14):
+            mode = rng.choice(["year", "month", "day", "day", "second"])
+            a, b = rng.choice(docs), rng.choice(docs)
+            if a > b:
+                a, b = b, a
+            style = rng.randint(0, 2)
+            r = rng.random()
+            if r < 0.35:
+                d0, d1 = _dt_period(a, mode)
+                texts.append(_plugin_text(a, mode, style)); queries.append((d0, d1, False, False)); kinds.append("single:" + mode)
+            else:
+                if mode == "second":
+                    mode = "day"
+                lo, hi = _dt_period(a, mode)[0], _dt_period(b, mode)[1]
+                if r < 0.5:
+                    texts.append("[%s to]" % _plugin_text(a, mode, style)); queries.append((lo, None, False, False)); kinds.append("from:" + mode)
+                elif r < 0.62:
+                    texts.append("[to %s]" % _plugin_text(b, mode, style)); queries.append((None, hi, False, False)); kinds.append("upto:" + mode)
+                elif r < 0.85:
+                    texts.append("[%s to %s]" % (_plugin_text(a, mode, style), _plugin_text(b, mode, style)))
+                    queries.append((lo, hi, False, False)); kinds.append("range:" + mode)
+                else:
+                    # exclusive braces leave the bound periods out (as DATETIME.parse_range does)
+                    sx, ex_ = rng.random() < 0.6, rng.random() < 0.6
+                    if not (sx or ex_):
+                        sx = True
+                    texts.append("%s%s to %s%s" % ("{" if sx else "[", _plugin_text(a, mode, style), _plugin_text(b, mode, style),
+                                                   "}" if ex_ else "]"))
+                    queries.append((_dt_period(a, mode)[1] if sx else lo, _dt_period(b, mode)[0] if ex_ else hi, sx, ex_))
+                    kinds.append("excl:" + mode)
+        cases.append({"docs": docs, "texts": texts, "queries": queries, "kinds": kinds, "basedate": base,
+                      "sortable": rng.random() < 0.3})
+    # the recorded defect on its documented input, on every seed
+    D = datetime.datetime
+    cases.append({"docs": [D(2004, 6, 1), D(2005, 6, 1), D(2006, 6, 1)], "texts": ["{2004 to 2006}", "[2004 to 2006]"],
+                  "queries": [(D(2004, 12, 31, 23, 59, 59, 999999), D(2006, 1, 1), True, True),
+                              (D(2004, 1, 1), D(2006, 12, 31, 23, 59, 59, 999999), False, False)],
+                  "kinds": ["excl:year", "range:year"], "basedate": D(2010, 6, 15, 12), "sortable": False})
+    outs = ctx.pmap(w_dateplugin, cases)
+    cfg = {"kind": "datetime", "bits": 64, "signed": True, "step": 8, "sortable": False, "dc": 0}
+    for case, out in zip(cases, outs):
+        if isinstance(out, str):
+            ctx.violation(SIG_BUILD, {"stream": "e2e-dateplugin"}, "index built", out)
+            continue
+        docs = [[d] for d in case["docs"]]
+        sd = _spec_docs(cfg, docs)
+        lines = []
+        for (a, b, sx, ex_) in case["queries"]:
+            lines.append("c13 spec-filter-int %s %s %s %s %s" % (sd, _o(G.to_spec(cfg, a)), _o(G.to_spec(cfg, b)), _b(sx), _b(ex_)))
+            lines.append("c13 spec-filter-int %s %s %s 0 0" % (sd, _o(G.to_spec(cfg, a)), _o(G.to_spec(cfg, b))))
+        exp = ctx.driver.ask(lines)
+        for i, (text, q, kind, o) in enumerate(zip(case["texts"], case["queries"], case["kinds"], out)):
+            e = [int(x) for x in exp[2 * i].strip("()").split()]
+            ctx.case(("e2e-dateplugin", sd, text), nontrivial=0 < len(e) < len(docs))
+            ctx.stat("e2e-dateplugin:" + kind)
+            if o == e:
+                continue
+            ser = {"stream": "e2e-dateplugin", "docs": [d.isoformat() for d in case["docs"]], "text": text,
+                   "basedate": case["basedate"].isoformat(), "query": _ser_q(cfg, q)}
+            sig = SIG_DATEPLUGIN
+            if kind.startswith("excl:") and isinstance(o, list):
+                # explained only if the observed result is exactly that of the same range with both
+                # bound periods taken in (the braces read as brackets)
+                a, b, sx, ex_ = q
+                mode = kind.split(":")[1]
+                incl = ctx.driver.ask1("c13 spec-filter-int %s %s %s 0 0" % (
+                    sd, _o(G.to_spec(cfg, _dt_period(a, mode)[0] if sx else a)), _o(G.to_spec(cfg, _dt_period(b, mode)[1] if ex_ else b))))
+                if o == [int(x) for x in incl.strip("()").split()]:
+                    sig = SIG_DATEPLUGIN_EXCL
+            ctx.violation(sig, ser, e, o, "QueryParser + DateParserPlugin on a real index vs the period interval in the Lean spec")
+
+
+# ================================================================================================
 # 5. numeric reading of float and Decimal ranges (deterministic probes; Lean oracle = numeric membership)
 
 def _rat(x):
@@ -1081,6 +1624,20 @@ def _run_record(ctx, rec):
         return []
     if st in ("e2e-range", "e2e-parse", "e2e-sort", "e2e"):
         return _replay_case(ctx, case)
+    if st == "e2e-dateplugin":
+        cfg = {"kind": "datetime", "bits": 64, "signed": True, "step": 8, "sortable": False, "dc": 0}
+        docs = [datetime.datetime.fromisoformat(d) for d in case["docs"]]
+        q = case["query"]
+        qq = (_unser_v(cfg, q[0]), _unser_v(cfg, q[1]), q[2], q[3])
+        out = w_dateplugin({"docs": docs, "texts": [case["text"]], "basedate": datetime.datetime.fromisoformat(case["basedate"])})
+        if isinstance(out, str):
+            return [(SIG_BUILD, case, "index built", out)]
+        sd = _spec_docs(cfg, [[d] for d in docs])
+        e = ctx.driver.ask1("c13 spec-filter-int %s %s %s %s %s" % (sd, _o(G.to_spec(cfg, qq[0])), _o(G.to_spec(cfg, qq[1])), _b(qq[2]), _b(qq[3])))
+        e = [int(x) for x in e.strip("()").split()]
+        if out[0] == e:
+            return []
+        return [(SIG_DATEPLUGIN_EXCL if (qq[2] or qq[3]) else SIG_DATEPLUGIN, case, e, out[0])]
     if st == "float-sortable":
         r = w_float_sortable(None)
         return [] if r == "ok" else [(SIG_FLOAT_SORTABLE, case, "document indexed", r)]
@@ -1148,7 +1705,7 @@ def _run_record(ctx, rec):
 def run(ctx):
     import time
     for fn in (_corpus, _split_exhaustive, _split_wide, _tiered_exhaustive8, _codec_int, _codec_float, _compile,
-               _datetime, _decimal, _e2e_8bit_dense, _e2e, _reject, _float_sortable_probe, _numeric_reading_probes):
+               _datetime, _decimal, _dateparse, _columns, _e2e_8bit_dense, _e2e, _e2e_dateplugin, _reject, _float_sortable_probe, _numeric_reading_probes):
         t = time.time()
         fn(ctx)
         ctx.stat("wall_ms:" + fn.__name__.lstrip("_"), int((time.time() - t) * 1000))
